@@ -281,7 +281,7 @@ func c06Inner(c c06Case) (vk.Result, error) {
 		return res, fmt.Errorf("harness: tapped %d first packets, expected %d", len(firsts), nconn+len(otherUIDs))
 	}
 	pv := srv.pv
-	sta2 := &State{StaticPv: &pv, UsedRandom: map[[32]byte]int64{}, WorldState: common.WorldState{Rand: rand.Reader, Now: func() time.Time { return t0 }}}
+	sta2 := vState(&State{StaticPv: &pv, UsedRandom: map[[32]byte]int64{}, WorldState: common.WorldState{Rand: rand.Reader, Now: func() time.Time { return t0 }}})
 	for _, first := range firsts {
 		ci, _, aerr := AuthFirstPacket(first, transport, sta2)
 		if aerr != nil {
